@@ -2,6 +2,8 @@
    clip, paired calls, one event per incident. *)
 From Coq Require Import List ZArith Bool.
 From TR Require Import model.Throttle model.ThrottleSpec proofs.ThrottleProofs proofs.ThrottleC06 model.ThrExt proofs.TieThrottle proofs.TieCorollaries.
+(* constants and wiring read from the Go sources on every run *)
+From TR Require Import proofs.FactsThrottle.
 Import ListNotations.
 Open Scope Z_scope.
 
